@@ -13,13 +13,14 @@ CLAIMS = {
     'C20': dict(
         text=("Machine-checked theorems over a line-by-line Gallina model of SeenSet/IndexedCache, for ALL key lists, value "
               "alphabets and histories (induction over the operation list): C20_check (coverage answers exactly 'some inserted "
-              "binding is contained in the lookup'), C20_clear; retrieval completeness is REFUTED in Coq by a witness "
-              "(C20_retrieve_refuted) that replays on the code = known finding C20-wildcard-preference. The model is tied to "
+              "binding is contained in the lookup'), C20_clear, C20_retrieve_sound (whatever retrieve returns is a stored, not overwritten entry compatible with the lookup: "
+              "retrieval never invents); retrieval COMPLETENESS is refuted in Coq by a witness (C20_retrieve_refuted) that replays on "
+              "the code = known finding C20-wildcard-preference: entries are lost, never invented. The model is tied to "
               "cache_data.py by comparing the result of every operation of generated histories (exact sequences) on every run; "
               "the implementation is compared with the reference store as well, and a disagreement that is not exactly the "
               "listed finding is a violation."),
         design='7/C20', technique='Coq proof (induction over operation histories, SeenSet invariant) + model/implementation correspondence by vm_compute',
-        note=BASE_NOTE + " Retrieval: only the refutation and the correspondence are available (no soundness theorem yet)."),
+        note=BASE_NOTE + " Retrieval: soundness proved, completeness refuted (known finding); the merged binding returned with an output is compared by the correspondence only."),
 
     'C01': dict(
         text=("Machine-checked theorem C01_filter: for every heap, every domain and every condition writable over one variable (any "
